@@ -13,7 +13,7 @@ def run(ctx):
     if not quick:
         vlib.model_check(ctx, 'OciRegistryMC.tla', 'OciRegistryMC_up.cfg', what='uploads, mounts, all range pairs on 0/1/2-byte blobs')
     rc.reg_check(ctx, STACKS_Q if quick else STACKS_T, STRICT, n_tlc=8 if quick else 200, n_rand=24 if quick else 800,
-                 cover='OciRegistryCover_all.cfg', cover_sample=200 if quick else 8000,
+                 cover='OciRegistryCover_all.cfg', cover_sample=200 if quick else 8000, wire=300 if quick else -1,
                  profiles=('range', 'all', 'upload'), tlc_cfg='OciRegistryGenNoUp.cfg', honest=True, label='all stacks vs OciRegistry (content)')
     # third sentence of the property: corrupted content read through the client never ends in a clean EOF
     # (client fault family: model check of CorruptNeverCleanEOF, its response scripts through the real client, validation)
@@ -21,7 +21,7 @@ def run(ctx):
     c18.corrupt_clause(ctx, quick)
     ctx.assumptions += ['independent sha256 in the harness maps bytes read to catalogue contents', 'ranges on block contents fall on block boundaries']
     return vlib.finish(ctx, rule='contents of length 0,1,2,3 (NUL, UTF-8 fragments), a 16 KiB block content and a 140 KiB manifest are pushed by every path '
-                       '(monolithic, chunked, mount, manifest by tag/digest, wrong digest/size declared) and read back completely and by ranges at every boundary through '
+                       '(monolithic, chunked, single POST, plain-HTTP PATCH/PUT requests at any offset, mount, manifest by tag/digest, wrong digest/size declared) and read back completely and by ranges at every boundary through '
                        'every stack; each read event carries the content the bytes hash to, the byte count, the reader descriptor and (for ranges) the slice, and TLC '
                        'requires them to be what OciRegistry says')
 
